@@ -238,6 +238,52 @@ def main():
                 rac.fail(f"equal-valued {s} {k}={v!r}", f"C19 {s!r} after {k} = {v!r} (through the manager): expression built earlier / deferred / immediate / Python give {[d] + vals}",
                          scr, "Manager.set_value")
                 break
+    rac.section("two-environments", "TWO environments in one process (two managers, the same container labels, different variable and element values) "
+                "evaluating the same strings one after the other, in both orders, then a variable of the second changed through ITS manager: each deferred "
+                "value equals the immediate value and the Python mirror of its OWN environment (nothing shared between environments: wave 9, C19-17)",
+                "10 strings x 2 orders x 2 changes")
+    TWO = '''
+def mk2():
+    e1 = mkenv_fresh()
+    e2 = mkenv_fresh()
+    e2._variables.update({"a": 7.0, "b": 5.0, "k1": -1.0, "z": 2.0, "n": 4})
+    e2._elements["q1"].update({"k1": 1.0, "l": 3.0})
+    return e1, e2
+'''
+    exec(TWO, globals())
+    two_cases = [("(a+b)*(q1->k1)", "((a+b)*(el_q1['k1']))"), ("a", "a"), ("a+b", "(a+b)"), ("q1->l", "el_q1['l']"), ("sin(a)*k1", "(math.sin(a)*k1)"), ("(a^n)-z", "((a**n)-z)"),
+                 ("atan2(a,b)", "math.atan2(a,b)"), ("-(b)", "(-(b))"), ("(k1/z)", "(k1/z)"), ("a*b*k1", "((a*b)*k1)")]
+    for s2, mirror in two_cases:
+        for order in ("first-then-second", "second-then-first"):
+            e1, e2 = mk2()
+            scr = PRELUDE + SRC + TWO + f"import copy\ne1, e2 = mk2()\ns = {s2!r}; mirror = {mirror!r}\n"
+            seq = [("e1", e1), ("e2", e2)] if order == "first-then-second" else [("e2", e2), ("e1", e1)]
+            exprs = {}
+            bad = None
+            try:
+                for nm, e in seq:
+                    exprs[nm] = e.madexpr(s2)
+                    scr += f"x_{nm} = {nm}.madexpr(s)\n"
+                for step in ("initially", ("a", -2.25), ("k1", 0.5)):
+                    if step != "initially":
+                        e2._vref[step[0]] = step[1]
+                        scr += f"e2._vref[{step[0]!r}] = {step[1]!r}\n"
+                    for nm, e in seq:
+                        ns = copy.deepcopy(pyns(e))
+                        d = num(val(exprs[nm]))
+                        vals = three(e, s2, mirror, ns)
+                        scr += f"ns = copy.deepcopy(pyns({nm})); vals = [num(val(x_{nm}))] + three({nm}, s, mirror, ns); print({nm!r}, vals); assert agree(vals, True, nan_mirror(mirror, ns)), ({nm!r}, vals)\n"
+                        rac.case((s2, order, str(step), nm), sample=dict(string=s2, order=order, step=str(step), environment=nm))
+                        expct = nan_mirror(mirror, ns)
+                        if not agree(vals, True, expct) or not agree([d, vals[1]], True, expct):
+                            bad = f"{nm} {step if step == 'initially' else 'after ' + step[0] + ' = ' + repr(step[1]) + ' in the second environment'}: expression built earlier / deferred / immediate / Python give {[d] + vals}"
+                            break
+                    if bad:
+                        break
+            except Exception as ex2:      # noqa
+                bad = f"raised {type(ex2).__name__}: {ex2}"
+            if bad:
+                rac.fail(f"two-environments {s2} {order}", f"C19 {s2!r} in two environments ({order}): {bad}", scr, "MadxEval")
     rac.section("precedence", "unparenthesised strings against the reading the grammar defines (rule nesting, left associativity, unary "
                 "sign binding tighter than ^)", "14 strings")
     for s, mirror in precedence_cases():
